@@ -1,6 +1,183 @@
-import Netpoll.Buf.Spec
+import Netpoll.Buf.World
+/-!
+# C01 – buffer reads return exactly the flushed bytes, in order, once
+
+Property theorems only.  Model: `Netpoll.Buf.Model` (one Lean function per Go method of
+`nocopy_linkbuffer.go`), dispatch `LB.step` (`Netpoll.Buf.Step`, the function the correspondence
+driver executes), spec: the FIFO queue of `Netpoll.Buf.Spec`.  Invariant and refinement relation `R`:
+`Netpoll.Buf.Inv`; per-operation proofs: `Netpoll.Buf.Refine.*`; assembly: `Netpoll.Buf.Run`.
+All theorems are for every byte type `α`, every `Cfg` (thresholds), every size and every operation
+sequence; no bounds.
+-/
 namespace Netpoll.Props.C01
 open Netpoll.Buf
-theorem placeholder_len_nil : (newLB ({} : Cfg) 0 : LB Nat).abs = [] := by
-  simp [newLB, LB.abs, newNode, Node.abs, Node.readable]
+
+variable {α : Type}
+
+/-- **C01_fifo.**  Start with `NewLinkBuffer(size)` and the empty queue and apply any list of
+single-buffer operations (all 23 constructors of `Op`: Malloc, WriteBinary/WriteString, WriteByte,
+WriteDirect, MallocAck, Flush, Next, Peek, Skip, ReadBinary/ReadString, ReadByte, Until, readCopy,
+Release, Close, Len, MallocLen, Bytes, GetBytes, indexByte, book+bookAck, resetTail, calcMaxSize).
+For as long as every call is inside `Contract`: the model never panics, every result is the one
+the FIFO queue prescribes, and after every call the abstract content, `Len()` and `MallocLen()`
+equal the queue's (`Conforms`, defined in `Netpoll.Buf.Run`). -/
+theorem C01_fifo [DecidableEq α] (cfg : Cfg) (size : Nat) (ops : List (Op α)) :
+    Conforms cfg (newLB cfg size : LB α) {} ops :=
+  conforms_of_R cfg ops (R_newLB cfg size)
+
+/-- the contract is satisfiable along a non-trivial sequence, with the results the queue prescribes -/
+example :
+    (runChecked ({ linkBufferCap := 8 } : Cfg) (newLB { linkBufferCap := 8 } 4 : LB Nat) {}
+      [.malloc 3 [1, 2, 3], .writeBinary [4, 5] 2, .mallocAck 4, .flush, .malloc 9 [6, 7, 8, 9, 10, 11, 12, 13, 14],
+       .flush, .peek 6, .next 2, .skip 1, .readBinary 4, .len, .writeByte 15, .mallocLen, .release, .readByte]).map (·.1) =
+    some [.unit, .num 2, .unit, .unit, .unit, .unit, .bytes [1, 2, 3, 4, 6, 7], .bytes [1, 2], .unit,
+          .bytes [4, 6, 7, 8], .num 6, .unit, .num 1, .unit, .bytes [9]] := by
+  decide
+
+/-- The same for any state related by the refinement relation (e.g. a Slice reader, or the
+receiver of an Append), not only a fresh buffer. -/
+theorem C01_fifo_from [DecidableEq α] (cfg : Cfg) {b : LB α} {q : Q α} (hR : R b q) (ops : List (Op α)) :
+    Conforms cfg b q ops :=
+  conforms_of_R cfg ops hR
+
+example : ∃ (b : LB Nat) (q : Q Nat), R b q ∧ q.items = [(2, true), (3, false)] := by
+  obtain ⟨b, hb⟩ := exists_R_of_run (α := Nat) {} 0 [.malloc 2 [1, 2], .flush, .writeByte 3, .readByte]
+    { items := [(2, true), (3, false)] } (by decide)
+  exact ⟨b, _, hb, rfl⟩
+
+/-- **C01_short_read_no_consume.**  A read (Next, Peek, Skip, ReadBinary/ReadString) asking for
+more than `Len()` returns an error and consumes nothing: content and counters are unchanged. -/
+theorem C01_short_read_no_consume [DecidableEq α] (cfg : Cfg) {b : LB α} {q : Q α} (hR : R b q)
+    (n : Int) (op : Op α) (hop : op = .next n ∨ op = .peek n ∨ op = .skip n ∨ op = .readBinary n)
+    (hC : Contract q op = true) (hlt : (q.len : Int) < n) :
+    ∃ b', b.step cfg op = some (b', .err) ∧ b'.abs = b.abs ∧ b'.length = b.length ∧
+      b'.mallocSize = b.mallocSize := by
+  have h0 : ¬ n ≤ 0 := by omega
+  have hl : q.len < n.toNat := by omega
+  obtain ⟨b', r, e, hR', hm⟩ := refine_step cfg hR op hC
+  have key : (specStep q op) = (q, .exact .err) := by
+    rcases hop with rfl | rfl | rfl | rfl <;> simp [specStep, takeRead, h0, hl]
+  have hq : specNext q op r = q := by
+    have : specNext q op r = (specStep q op).1 := by
+      rcases hop with rfl | rfl | rfl | rfl <;> rfl
+    rw [this, key]
+  rw [key] at hm
+  rw [hq] at hR'
+  have hr : r = .err := hm
+  subst hr
+  exact ⟨b', e, by rw [hR'.abs, hR.abs], by rw [hR'.len, hR.len], by rw [hR'.mlen, hR.mlen]⟩
+
+example : ∃ (b : LB Nat) (q : Q Nat), R b q ∧ Contract q (.next 3) = true ∧ (q.len : Int) < 3 ∧ q.len = 2 := by
+  obtain ⟨b, hb⟩ := exists_R_of_run (α := Nat) {} 0 [.malloc 2 [1, 2], .flush, .writeByte 3]
+    { items := [(1, true), (2, true), (3, false)] } (by decide)
+  exact ⟨b, _, hb, by decide, by decide, by decide⟩
+
+/-- **C01_ack_discard.**  `MallocAck(n)` keeps the flushed bytes and the first `n` pending bytes and
+removes the other pending bytes from the queue; they never become readable: a following `Flush`
+makes exactly the kept entries readable (`Len() = old Len + n`), and by `C01_fifo_from` every later
+read is answered from that queue. -/
+theorem C01_ack_discard [DecidableEq α] (cfg : Cfg) {b : LB α} {q : Q α} (hR : R b q) (n : Int) (hn : 0 ≤ n)
+    (hC : Contract q (.mallocAck n) = true) :
+    ∃ b1 b2, b.mallocAck n = some (b1, .unit) ∧ b1.flush cfg = some (b2, .unit) ∧
+      b1.abs = q.items.take (q.len + n.toNat) ∧ b1.length = q.len ∧ b1.mallocSize = n.toNat ∧
+      b2.abs = (q.items.take (q.len + n.toNat)).map (fun x => (x.1, true)) ∧
+      b2.length = q.len + n.toNat ∧ b2.mallocSize = 0 ∧
+      R b2 { q with items := (q.items.take (q.len + n.toNat)).map (fun x => (x.1, true)),
+                    binSinceFlush := false, appSinceFlush := false } := by
+  have hn0 : ¬ n < 0 := by omega
+  obtain ⟨b1, r1, e1, hR1, hm1⟩ := mallocAck_refines hR n hC
+  simp only [specStep, hn0, if_false] at hR1 hm1
+  have hr1 : r1 = .unit := hm1
+  subst hr1
+  have hC' := hC
+  simp only [Contract, Bool.and_eq_true, Bool.not_eq_true', decide_eq_true_eq] at hC'
+  obtain ⟨⟨⟨⟨hd, hro⟩, _⟩, _⟩, hnm⟩ := hC'
+  obtain ⟨b2, r2, e2, hR2, hm2⟩ := flush_refines cfg hR1 (by simp [Contract, hd, hro])
+  simp only [specStep] at hR2 hm2
+  have hr2 : r2 = .unit := hm2
+  subst hr2
+  have hlen : (q.items.take (q.len + n.toNat)).length = q.len + n.toNat := by
+    have := filter_add_filter_not q.items
+    simp only [List.length_take]
+    have h1 : q.len = (q.items.filter (·.2)).length := rfl
+    have h2 : q.mallocLen = (q.items.filter (! ·.2)).length := rfl
+    omega
+  have hall : ∀ l : List (α × Bool), ((l.map fun x => (x.1, true)).filter (·.2)).length = l.length := by
+    intro l
+    have : (l.map fun x => (x.1, true)).filter (·.2) = l.map fun x => (x.1, true) := by
+      apply List.filter_eq_self.2; intro x hx
+      obtain ⟨a, _, rfl⟩ := List.mem_map.1 hx; rfl
+    rw [this, List.length_map]
+  have hb : b1.length = b.length ∧ b1.mallocSize = n.toNat := by
+    unfold LB.mallocAck at e1
+    simp only [hn0, if_false] at e1
+    split at e1
+    · cases e1
+    · split at e1
+      · cases e1
+      · cases e1; exact ⟨rfl, rfl⟩
+  refine ⟨b1, b2, e1, e2, hR1.abs, by rw [hb.1, hR.len], hb.2, hR2.abs, ?_, ?_, hR2⟩
+  · rw [hR2.len]
+    show ((((q.items.take (q.len + n.toNat)).map fun x => (x.1, true))).filter (·.2)).length = _
+    rw [hall, hlen]
+  · rw [hR2.mlen]
+    show ((((q.items.take (q.len + n.toNat)).map fun x => (x.1, true))).filter (! ·.2)).length = 0
+    have : ((q.items.take (q.len + n.toNat)).map fun x => (x.1, true)).filter (! ·.2) = [] := by
+      apply List.filter_eq_nil_iff.2; intro x hx
+      obtain ⟨a, _, rfl⟩ := List.mem_map.1 hx; simp
+    rw [this]; rfl
+
+example : ∃ (b : LB Nat) (q : Q Nat), R b q ∧ Contract q (.mallocAck 1) = true ∧ q.len = 2 ∧ q.mallocLen = 3 := by
+  obtain ⟨b, hb⟩ := exists_R_of_run (α := Nat) {} 0 [.malloc 2 [1, 2], .flush, .malloc 3 [3, 4, 5]]
+    { items := [(1, true), (2, true), (3, false), (4, false), (5, false)] } (by decide)
+  exact ⟨b, _, hb, by decide, by decide, by decide⟩
+
+/-- **C01_slice.**  `Slice(n)` refines `specSlice`: no panic inside the contract, the parent keeps
+the queue minus its first `n` entries, and the child (a read-only buffer) represents exactly those
+`n` entries – and both are again in the refinement relation, so `C01_fifo_from` applies to them. -/
+theorem C01_slice (cfg : Cfg) {b : LB α} {q : Q α} (hR : R b q) (n : Int) (hC : sliceContract q = true) :
+    ∃ b' r c, b.slice cfg n = some (b', r, c) ∧ R b' (specSlice q n).1 ∧ Matches r (specSlice q n).2.2 ∧
+      (match c, (specSlice q n).2.1 with
+       | some cb, some cq => R cb cq
+       | none, none => True
+       | _, _ => False) :=
+  slice_refines cfg hR n hC
+
+example : ∃ (b : LB Nat) (q : Q Nat), R b q ∧ sliceContract q = true ∧ q.len = 3 := by
+  obtain ⟨b, hb⟩ := exists_R_of_run (α := Nat) {} 0 [.malloc 2 [1, 2], .flush, .writeBinary [3] 1, .flush, .writeByte 4]
+    { items := [(1, true), (2, true), (3, true), (4, false)] } (by decide)
+  exact ⟨b, _, hb, by decide, by decide⟩
+
+/-- **C01_append.**  `Append(donor)` (`WriteBuffer`) refines `specAppend`: no panic inside the
+contract, the receiver represents the concatenation of both queues (the donor's flushed entries are
+counted in `Len()` at once), the donor is dead and empty. -/
+theorem C01_append {b d : LB α} {q qd : Q α} (hRb : R b q) (hRd : R d qd) (hC : appendContract q qd = true) :
+    ∃ b' d', b.writeBuffer d = some (b', d', .unit) ∧ R b' (specAppend q qd).1 ∧ R d' (specAppend q qd).2 :=
+  writeBuffer_refines hRb hRd hC
+
+example : ∃ (b d : LB Nat) (q qd : Q Nat), R b q ∧ R d qd ∧ appendContract q qd = true ∧
+    q.items = [(1, false)] ∧ qd.items = [(2, true), (3, false)] := by
+  obtain ⟨b, hb⟩ := exists_R_of_run (α := Nat) {} 0 [.writeByte 1] { items := [(1, false)] } (by decide)
+  obtain ⟨d, hd⟩ := exists_R_of_run (α := Nat) {} 5 [.writeByte 2, .flush, .writeByte 3]
+    { items := [(2, true), (3, false)] } (by decide)
+  exact ⟨b, d, _, _, hb, hd, by decide, rfl, rfl⟩
+
+/-- **C01_fifo_world.**  Any number of buffers: start with none and apply any list of world
+operations – `NewLinkBuffer(size)`, a single-buffer operation on buffer `i`, `Slice(n)` on buffer `i`
+(the reader it returns becomes a new buffer), `Append` of buffer `j` to buffer `i`.  For as long
+as every call is inside its contract, no call panics, every result is the one the FIFO spec
+prescribes, and every buffer touched shows its queue's content, `Len()` and `MallocLen()`
+(`ConformsW`, `Netpoll.Buf.World`).  This covers Slice readers and appended buffers used further. -/
+theorem C01_fifo_world [DecidableEq α] (cfg : Cfg) (ops : List (WOp α)) :
+    ConformsW cfg ([] : List (LB α)) [] ops :=
+  conformsW_of_RW cfg ops ⟨rfl, fun i b q hb _ => by simp at hb⟩
+
+/-- a world run inside the contracts: two buffers, Append, Flush, Slice, reads on the Slice reader -/
+example :
+    (runCheckedW ({ linkBufferCap := 8 } : Cfg) ([] : List (LB Nat)) []
+      [.new 0, .new 4, .on 1 (.malloc 3 [1, 2, 3]), .on 1 .flush, .on 1 (.writeByte 4), .on 0 (.writeByte 9),
+       .append 0 1, .on 0 .flush, .slice 0 3 , .on 2 (.next 2), .on 0 (.readBinary 1), .on 2 .release]).map (·.2) =
+    some [{ items := [(4, true)] }, { dead := true }, { items := [(2, true)], readOnly := true }] := by
+  decide
+
 end Netpoll.Props.C01
